@@ -177,6 +177,38 @@ def _snap_result(r):
             {a: list(r.adj[a]) for a in r})
 
 
+PERMUTE_SECONDS = 30
+_timeouts = [0]
+
+
+class _TimedOut(BaseException):
+    pass
+
+
+class _watchdog:
+    """raise _TimedOut in the main thread after `seconds` (no effect in other threads)"""
+    def __init__(self, seconds):
+        self.seconds = seconds
+        self.active = False
+
+    def __enter__(self):
+        import signal, threading
+        if threading.current_thread() is threading.main_thread():
+            def fire(signum, frame):
+                raise _TimedOut()
+            self.old = signal.signal(signal.SIGALRM, fire)
+            signal.setitimer(signal.ITIMER_REAL, self.seconds)
+            self.active = True
+        return self
+
+    def __exit__(self, *exc):
+        import signal
+        if self.active:
+            signal.setitimer(signal.ITIMER_REAL, 0)
+            signal.signal(signal.SIGALRM, self.old)
+        return False
+
+
 def perm_one(run, model, fam, g, seed, feed=64):
     import tucan.graph_utils as GU
     n, ne = g.number_of_nodes(), g.number_of_edges()
@@ -188,9 +220,17 @@ def perm_one(run, model, fam, g, seed, feed=64):
     before = mol_checks.snapshot(g)
     saved_state = random.getstate()
     try:
-        # ---- pristine call
+        # ---- pristine call (under a watchdog: the helper's retry loop has no bound of its own)
+        if _timeouts[0] >= 3:
+            run.count("c16:not called after 3 calls that did not return")
+            return
         try:
-            r = GU.permute_molecule(g, seed)
+            with _watchdog(PERMUTE_SECONDS):
+                r = GU.permute_molecule(g, seed)
+        except _TimedOut:
+            _timeouts[0] += 1
+            _hit(run, "C16", "permute_molecule did not return within %d s" % PERMUTE_SECONDS, case, {})
+            return
         except Exception as e:
             _hit(run, "C16", "permute_molecule raised " + type(e).__name__, case, {"msg": str(e)[:200]})
             return
@@ -692,9 +732,17 @@ def k11_one(run, model, family, n):
         s = impl.serialize_molecule(c)
         g2 = impl.graph_from_tucan(s)
         s2 = impl.tucan_of(g2)
+        # the same objects once more: a graph that has been canonicalized / serialized before is still a molecule
+        s_again = impl.serialize_molecule(c)
+        s_recanon = impl.serialize_molecule(impl.canonicalize_molecule(c))
     except Exception as e:
         _hit(run, "C15", type(e).__name__, case, {"msg": str(e)[:200], "where": "harness process"})
         return None
+    if s_again != s:
+        _hit(run, "C14", "serializing the same canonical graph a second time gives another string", case, {"first": s[:200], "again": s_again[:200]})
+    if s_recanon != s:
+        _hit(run, "C01", "canonicalizing the canonical graph again (another numbering of the same molecule) gives another string", case,
+             {"first": s[:200], "recanonicalized": s_recanon[:200]})
     if s2 != s:
         _hit(run, "C03", "string is not a fixed point of parse/canonicalize/serialize", case, {"a": s[:200], "b": s2[:200]})
     comp = run.comp("K11")
